@@ -585,9 +585,7 @@ def recheck_via_replay(replay_fn):
 def run_regressions(ctx, prop, recheck):
     """the regression corpus: stored failing inputs of past (seeded or repaired) defects, each executed again through the property's
     own `recheck`; runs first"""
-    for e in load_corpus(prop):
-        if not isinstance(e, dict) or 'regress' not in e:
-            continue
+    for e in load_corpus(prop, regress=True):
         kind, res = forked(recheck, e['replay'], timeout=180)
         ctx.case({'stream': 'regression-corpus', 'origin': e['regress']})
         ctx.count('stream:regression-corpus')
@@ -640,8 +638,10 @@ def forked(fn, *args, timeout=300):
     return res
 
 
-def load_corpus(prop):
-    """Minimised past failures (and pinned replays of fixed findings); always run first."""
+def load_corpus(prop, regress=False):
+    """Minimised past failures (and pinned replays of fixed findings); always run first.  Two kinds of entries live side by side:
+    cases in the property's own input format (returned by default) and stored replays of past violations (`regress` entries,
+    executed by `run_regressions` through the property's `recheck`)."""
     d = os.path.join(VERIF, 'corpus', prop)
     out = []
     if os.path.isdir(d):
@@ -649,4 +649,4 @@ def load_corpus(prop):
             if fn.endswith('.json'):
                 obj = json.load(open(os.path.join(d, fn)))
                 out.extend(obj if isinstance(obj, list) else [obj])
-    return out
+    return [e for e in out if (isinstance(e, dict) and 'regress' in e) == regress]
